@@ -30,6 +30,7 @@ def check(repo, tier="quick"):
         "interpreter's dict, validation-before-base-call inside every override, pickling protocol shape, and name agreement of "
         "every fixeddict declaration in the package (so pickle can find the class)."
     )
+    res.rule("C27.f", "bug patterns with zero expected instances in this property's modules: swapped same-named arguments, lower-bound guard followed by a decrement of the guarded value, presence of a dictionary entry decided by truthiness")
     res.rule("C27.a", "every key-inserting method of dict is overridden in the generated class")
     res.rule("C27.b", "every override reaches the base dict only after (or immediately before) validating keys against entry_objs")
     res.rule("C27.c", "pickling: __reduce__ = (type(self), (), state); __setstate__ and copy go through validated paths")
@@ -110,6 +111,10 @@ def check(repo, tier="quick"):
             by="module-level, name agrees",
         )
     res.info["fixeddict_declarations"] = n_decl
+    from .. import lints as _lints
+
+    _lints.rule(repo, res, "C27.f", ['fixeddict'])
+    res.floor("C27.f", 2)
     res.floor("C27.a", 4)
     res.floor("C27.b", 4)
     res.floor("C27.c", 5)
